@@ -23,6 +23,8 @@ def norm(e):
         return ('call', callee if isinstance(callee, str) else ('indirect',), tuple(norm(a) for a in e[2]), None)
     if e[0] == 'cast':
         return norm(e[1])
+    if e[0] == 'index' and isinstance(e[2], tuple) and e[2][0] == 'const':
+        return ('index', norm(e[1]), '[%d]' % e[2][1])          # cells[1] through a constant local or a literal: one spelling
     return map_children(e, norm)
 
 
